@@ -277,3 +277,36 @@ V('ok4-ml-cond', ['C01', 'C12'], T2,
   "    for lang in ml:\n        for part in ml[lang][1:]:\n            part[1]= list(n + 1 for n in part[1])", 'OK4')
 V('ok4-map-minus1', ['C14'], 'yalafi/shell/utils.py',
   "    offset = abs(charmap[beg]) - 1", "    offset = abs(charmap[beg])", 'OK4')
+
+# ---------------------------------------------------------------- struct
+SH = 'yalafi/shell/shell.py'
+V('ls2p-end-from-last', ['C03', 'C18'], P,
+  "            end = next((i for i in range(beg + 1, len(toks))", "            end = next((i for i in range(last, len(toks))", 'LS2p')
+V('ls2p-begin-plus1', ['C03', 'C18'], P,
+  "            beg = next((i for i in range(last, len(toks))", "            beg = next((i for i in range(last + 1, len(toks))", 'LS2p')
+V('ls2p-cursor', ['C03'], P, "            last = end + 1\n", "            last = end + 2\n", 'LS2p')
+V('ls2p-copy', ['C03'], P, "            out += toks[last:beg]\n", "            out += toks[last:beg - 1]\n", 'LS2p')
+V('ls2p-neutral', ['C03', 'C18'], P,
+  "            out += toks[last:beg]\n", "            piece = toks[last:beg]\n            out += piece\n", [])
+V('at1-own-delims', ['C03', 'C07'], P,
+  "            if tok.txt == '{':\n                lev += 1\n            if tok.txt == '}':\n                lev -= 1\n            if tok.txt == end and lev == 0:",
+  "            if tok.txt == ('{' if end == '}' else '['):\n                lev += 1\n            if tok.txt == end:\n                lev -= 1\n            if tok.txt == end and lev == 0:", 'AT1')
+V('at1-level', ['C03', 'C07'], P,
+  "            if tok.txt == end and lev == 0:", "            if tok.txt == end and lev <= 1:", 'AT1')
+V('at1-neutral', ['C03', 'C07'], P,
+  "            if tok.txt == '{':\n                lev += 1\n            if tok.txt == '}':\n                lev -= 1\n",
+  "            if tok.txt == '{':\n                lev += 1\n            elif tok.txt == '}':\n                lev -= 1\n", [])
+V('ex1-cond-reset', ['C18'], P,
+  "            mac.extract = self.parms.scanner.scan(extr)\n            mac.repl = []   # overwrite possible handlers",
+  "            if extr:\n                mac.extract = self.parms.scanner.scan(extr)\n                mac.repl = []", 'EX1')
+V('ex1-index', ['C18'], P, "extr = '#' + str(pos + 1)", "extr = '#' + str(pos)", 'EX1')
+V('ex1-keep-main', ['C18'], P,
+  "        if extract:\n            main = []\n        for extr in self.extracted:", "        for extr in self.extracted:", 'EX1')
+V('wl1-normpath', ['C18'], SH, "    done.append(f)\n", "    done.append(os.path.normpath(f))\n", 'WL1')
+V('wl1-no-done-test', ['C18'], SH, "    if f in done or skip_file(f):\n        continue\n", "    if skip_file(f):\n        continue\n", 'WL1')
+V('wl1-todo-test', ['C18'], SH, "        if f not in done + todo and not skip_file(f):", "        if f not in done and not skip_file(f):", 'WL1')
+V('pd7-prev-output', ['C04'], P,
+  "            out.append(defs.TextToken(out[-1].pos,\n                                out_so_far[pos].txt[-1], pos_fix=True))",
+  "            out.append(defs.TextToken(out_so_far[pos].pos,\n                                out_so_far[pos].txt[-1], pos_fix=True))", 'PD7')
+V('pd7-literal', ['C04'], 'yalafi/handlers.py',
+  "        out = [defs.TextToken(pos, '[0]', pos_fix=True),", "        out = [defs.TextToken(1, '[0]', pos_fix=True),", 'PD7')
